@@ -30,7 +30,11 @@ def var_key(n):
 
 
 class Deps:
-    def __init__(self, f, out_params_of=None):
+    def __init__(self, f, out_params_of=None, nonempty_loops=False):
+        """nonempty_loops: counted loops `for (i = 0; i < N; i++)` are taken to run at least once (N is a space dimension /
+        a size known to be positive): the state that leaves such a loop is the one at the end of its body, not the one
+        before it.  Without it a vector filled in a dimension loop keeps what the previous iteration of an OUTER loop left."""
+        self.nonempty_loops = nonempty_loops
         self.f = f
         self.g = CFG(f)
         self.params = {p["d"]: p["n"] for p in f.params}
@@ -144,18 +148,65 @@ class Deps:
             return {"P:" + key[2]}
         return set()
 
+    def _counted_header(self, b):
+        """block b is the condition block of a counted `for (..; i < N; ..)` loop"""
+        blk = self.g.blocks[b]
+        if len([x for x in blk["s"] if x is not None]) != 2 or not any(p < b for p in self.g.preds[b]):
+            return False
+        tc = self.g.nodes.get(blk.get("tc")) if blk.get("tc") is not None else None
+        par = self.f.parent(tc) if tc is not None else None
+        if par is None or par["k"] != "For":
+            return False
+        c = self.g.cond(b)
+        return c is not None and c["k"] == "BinOp" and c.get("op") == "<" and c["c"][0] is not None and \
+            c["c"][0]["k"] == "DeclRefExpr" and c["c"][0].get("d") in self.loopvars
+
     def solve(self):
         g = self.g
         IN = {g.entry: {}}
+        OUT = {}
         work = [g.entry]
         while work:
             b = work.pop()
             st = IN[b]
             for i, n in g.elems(b):
                 st = self.transfer(st, n)
-            for s in g.blocks[b]["s"]:
+            counted = self.nonempty_loops and self._counted_header(b)
+            out_changed = OUT.get(b) != st
+            OUT[b] = st
+            if self.nonempty_loops and out_changed:
+                # a latch whose state changed re-opens its (counted) loop header even when the header's IN did not grow
+                for s in g.blocks[b]["s"]:
+                    if s is not None and s > b and s in IN and self._counted_header(s) and s not in work:
+                        work.append(s)
+            for si, s in enumerate(g.blocks[b]["s"]):
                 if s is None:
                     continue
+                if counted and si == 1:
+                    # exit edge of a loop that runs at least once: only what comes round the back edge leaves the loop
+                    back = [OUT[p] for p in g.preds[b] if p < b and p in OUT]
+                    if not back:
+                        continue
+                    st_exit = {}
+                    keys = set()
+                    for o in back:
+                        keys |= set(o)
+                    for k in keys:
+                        acc = set()
+                        for o in back:
+                            acc |= o[k] if k in o else self._initial(k)
+                        st_exit[k] = acc
+                    for i, n in g.elems(b):
+                        st_exit = self.transfer(st_exit, n)
+                    self._flow(IN, work, s, st_exit)
+                    continue
+                self._flow(IN, work, s, st)
+        self.IN = IN
+        return self
+
+    def _flow(self, IN, work, s, st):
+        if True:
+            if True:
                 if s not in IN:
                     IN[s] = {k: set(v) for k, v in st.items()}
                     work.append(s)
@@ -178,8 +229,6 @@ class Deps:
                                 changed = True
                     if changed:
                         work.append(s)
-        self.IN = IN
-        return self
 
     def state_before(self, node):
         """dependence state just before the CFG element of `node`"""
